@@ -19,7 +19,7 @@ def _verify_one(args):
     C = importlib.import_module(modname)
     reg = {c.qual: c for c in C.CONTRACTS}
     c = reg[qual]
-    sv = Solver(timeout_ms=timeout_ms)
+    sv = Solver(timeout_ms=timeout_ms, defer=True)
     e = Engine(reg, sv, prop)
     out = {"qual": qual, "error": None, "out_of_subset": None}
     try:
@@ -30,7 +30,7 @@ def _verify_one(args):
         out["error"] = traceback.format_exc()[-1500:]
     out["obligations"] = [
         dict(name=o.name, status=o.status, backend=o.backend, time=o.time, trace=o.trace[-12:], lineno=o.lineno,
-             model=o.model, smt2=o.smt2 if o.status != PROVED else None, notes=o.notes)
+             model=o.model, smt2=o.smt2, notes=o.notes)
         for o in e.obligations
     ]
     out["assumptions"] = sorted(e.assumptions)
@@ -66,6 +66,23 @@ def run_contracts(run, contracts_module, timeout_ms=10000, only=None, procs=None
             results = pool.map(_verify_one, jobs, chunksize=1)
     else:
         results = [_verify_one(j) for j in jobs]
+    # phase 2: discharge every obligation in parallel from its SMT-LIB text
+    from .solve import solve_smt2
+
+    allobs = [o for r in results for o in r["obligations"]]
+    todo_obs = [o for o in allobs if o["status"] is None]
+    if todo_obs:
+        nproc = procs if procs and procs > 1 else (os.cpu_count() or 4)
+        jobs2 = [(o["smt2"], timeout_ms) for o in todo_obs]
+        if int(os.environ.get("VERIF_PROCS", nproc)) > 1 and len(jobs2) > 1:
+            with multiprocessing.get_context("fork").Pool(min(int(os.environ.get("VERIF_PROCS", nproc)), len(jobs2))) as pool:
+                solved = pool.map(solve_smt2, jobs2, chunksize=max(1, len(jobs2) // 64))
+        else:
+            solved = [solve_smt2(j) for j in jobs2]
+        for o, (st_, be, dt, model) in zip(todo_obs, solved):
+            o["status"], o["backend"], o["time"], o["model"] = st_, be, dt, model
+            if st_ == PROVED:
+                o["smt2"] = None
     refuted = []
     for r in results:
         for o in r["obligations"]:
